@@ -29,6 +29,7 @@ def tableEnc (tbl : List (Rune × EncResult)) : Encoder := fun r =>
 def parseVariant (s : String) : EncVariant :=
   match s.toList with
   | [a, b] => { acsAll := a == 'r', acsRawByte := b == 'r' }
+  | [a, b, c] => { acsAll := a == 'r', acsRawByte := b == 'r', acsStrip := c == 's' }
   | _ => {}
 
 def showMap (m : RuneMap) : String :=
@@ -38,12 +39,18 @@ def showMap (m : RuneMap) : String :=
   let items := arr.toList.map fun k => s!"{k}={hex ((m.get? k).getD [])}"
   if items.isEmpty then "-" else ",".intercalate items
 
+/-- `syn:<acsc hex>:<smacs hex>:<rmacs hex>`: a synthetic description that has nothing but these three strings -/
+def synEntry (name : String) : Option Terminfo :=
+  match name.splitOn ":" with
+  | ["syn", a, s, r] => some { (default : Terminfo) with name := "syn", altChars := unhex a, enterAcs := unhex s, exitAcs := unhex r }
+  | _ => none
+
 def runAcs (env : Env) (rest : String) : String :=
   match words rest with
   | [v, name] =>
-    match env.lookup name with
+    match (if name.startsWith "syn:" then synEntry name else env.lookup name) with
     | some ti => showMap (buildAcsMap (parseVariant v) tables.names ti)
-    | none => "no-entry"
+    | none => if name.startsWith "syn:" then "bad-case" else "no-entry"
   | _ => "bad-case"
 
 structure St where
